@@ -188,7 +188,19 @@ func recvTypeName(fd *ast.FuncDecl) (name string, ptr bool) {
 	return "", ptr
 }
 
+// rehomedName: display name on the loaded tree → display name on the tree the rules were confirmed on, for functions
+// that became methods (or the other way round, or moved to another receiver) — see rename.go, pass 4.
+var rehomedName = map[string]string{}
+
 func funcDisplayName(dir string, fd *ast.FuncDecl) string {
+	n := rawDisplayName(dir, fd)
+	if b, ok := rehomedName[n]; ok {
+		return b
+	}
+	return n
+}
+
+func rawDisplayName(dir string, fd *ast.FuncDecl) string {
 	rn, ptr := recvTypeName(fd)
 	if rn == "" {
 		return dir + "." + fd.Name.Name
@@ -205,14 +217,21 @@ func (c *Ctx) Func(dir, recv, name string) *FuncRef {
 	if p == nil {
 		return nil
 	}
+	want := map[string]bool{}
+	if recv == "" {
+		want[dir+"."+name] = true
+	} else {
+		want[fmt.Sprintf("%s.(*%s).%s", dir, recv, name)] = true
+		want[fmt.Sprintf("%s.(%s).%s", dir, recv, name)] = true
+	}
 	for _, f := range p.Syntax {
 		for _, d := range f.Decls {
 			fd, ok := d.(*ast.FuncDecl)
-			if !ok || fd.Body == nil || fd.Name.Name != name {
+			if !ok || fd.Body == nil {
 				continue
 			}
-			rn, _ := recvTypeName(fd)
-			if rn != recv {
+			// by the name the function had on the confirmed tree (a function turned into a method keeps its anchor)
+			if !want[funcDisplayName(dir, fd)] {
 				continue
 			}
 			obj, _ := p.TypesInfo.Defs[fd.Name].(*types.Func)
